@@ -257,7 +257,15 @@ func c27adversary(r *vh.Run, size int, item *int) {
 	var outside common.Uint256
 	outside = sha256.Sum256([]byte("verif-c27-hash-outside-the-tree"))
 	pool := append(append([]common.Uint256(nil), l.nodeSet...), outside)
-	a := &c27adv{r: r, l: l, flags: []byte{0, 1, 2}, pool: pool, states: map[c27skey]struct{}{}}
+	hint := len(l.advValues())
+	for i := 0; i < maxSteps; i++ {
+		hint *= 2 * len(pool)
+	}
+	hint = hint/r.R.NShards + 1024
+	if hint > 1<<22 {
+		hint = 1 << 22
+	}
+	a := &c27adv{r: r, l: l, flags: []byte{0, 1, 2}, pool: pool, states: make(map[c27skey]struct{}, hint)}
 	for _, val := range l.advValues() {
 		base := c27varbytes(val.v)
 		cur := HashLeaf(val.v) // the statement speaks of HashLeaf(value)
@@ -282,7 +290,7 @@ func c27adversary(r *vh.Run, size int, item *int) {
 				} else {
 					nx = c27node(cur, h)
 				}
-				p := append(append(append([]byte(nil), base...), f), h[:]...)
+				p := append(append(append(make([]byte, 0, len(base)+33*maxSteps), base...), f), h[:]...)
 				a.trans++
 				a.visit(p, nx, maxSteps-1, kind)
 				a.dfs(p, nx, maxSteps-1, kind)
@@ -463,7 +471,7 @@ func TestVerif_C27(t *testing.T) {
 	defer r.Finish()
 	advMax := r.Pick(5, 8)
 	honestMax := r.Pick(17, 33)
-	r.Rule("adversary: for every list size s<=S every path value||step* with value in {every member, left||right of every internal node, a non-member, the empty value, a raw leaf hash}, <= depth(s)+1 steps, step = flag {0,1,2} x hash {every leaf/internal/root hash of the list's tree, one outside hash} is given to the real MerkleProve with the list's root; state = (hash folded so far by the reference, steps left), transition = one step; honest: every member of every list of size <= N: generated path proves and returns it, then every single mutation of the path bytes (256 values of each flag byte, 4 values of every other byte, every truncation, extensions by 1..66 bytes, step inserted/removed, sibling replaced by every tree hash, value replaced, 50+ canonical/non-canonical/lying length prefixes). Oracle everywhere: no panic, and a returned value has its HashLeaf in the list")
+	r.Rule("adversary: for every list size s<=S every path value||step* with value in {every member, left||right of every internal node, a non-member, the empty value, a raw leaf hash}, <= depth(s)+1 steps, step = flag {0,1,2} x hash {every leaf/internal/root hash of the list's tree, one outside hash} is given to the real MerkleProve with the list's root; state = (hash folded so far by the reference, steps left), transition = one step (no pruning on visited states: every path is executed; states are counted distinct per shard and summed, so a state reached from two values in two shards counts twice); honest: every member of every list of size <= N: generated path proves and returns it, then every single mutation of the path bytes (256 values of each flag byte, 4 values of every other byte, every truncation, extensions by 1..66 bytes, step inserted/removed, sibling replaced by every tree hash, value replaced, 50+ canonical/non-canonical/lying length prefixes). Oracle everywhere: no panic, and a returned value has its HashLeaf in the list")
 	r.Bound(fmt.Sprintf("adversary term space complete for list sizes 1..%d with <= depth+1 steps; honest paths and single mutations for list sizes 1..%d", advMax, honestMax))
 	r.Assume("sha256 collision resistance is not assumed by the oracle (it only checks membership of what is returned); the list's root is TreeHasher.HashFullTreeWithLeafHash(list) as the state store computes CrossStatesRoot")
 
